@@ -116,9 +116,16 @@ pub enum Inst {
     Disp { sender: Id, hub: Id, reward: Id, sd: u8, bd: u8, keeper: Id, rate: u128, swap: Id, oracle: Id, denoms: Vec<u8> },
     Reg { sender: Id, hub: Id, vals: Vec<Id> },
 }
+/// read paths that take arguments (the argument-free ones are part of every observation)
+#[derive(Clone, Debug, PartialEq)]
+pub enum Query {
+    /// hub `AllHistory { start_from, limit }`
+    Hist(O<u64>, O<u32>),
+}
 #[derive(Clone, Debug, PartialEq)]
 pub enum Op {
     Tx { sender: Id, target: Id, call: Call, funds: Vec<(u8, u128)> },
+    Query(Query),
     Env(EnvOp),
     Inst(Inst),
     Reset,
@@ -334,6 +341,7 @@ impl Op {
                     vals.iter().map(|d| format!(" {}", d)).collect::<String>()
                 ),
             },
+            Op::Query(Query::Hist(st, lim)) => format!("q hist {} {}", o(st), o(lim)),
             Op::Reset => "reset".into(),
             Op::Save => "save".into(),
             Op::Restore => "restore".into(),
@@ -517,6 +525,7 @@ pub fn parse_line(line: &str) -> Option<Op> {
         ["env", "legacy", u, b, a] => Some(Op::Env(EnvOp::Legacy(pn(u)?, pn(b)?, pn(a)?))),
         ["env", "unbondingtime", n] => Some(Op::Env(EnvOp::UnbondingTime(pn(n)?))),
         ["reset"] => Some(Op::Reset),
+        ["q", "hist", st, lim] => Some(Op::Query(Query::Hist(po(st)?, po(lim)?))),
         ["save"] => Some(Op::Save),
         ["restore"] => Some(Op::Restore),
         ["inst", "hub", s, e, u, f, t, rd, up] => Some(Op::Inst(Inst::Hub {
@@ -876,7 +885,7 @@ impl Chain {
                 *self = Chain::new();
                 Ok(())
             }
-            Op::Save | Op::Restore => Ok(()),
+            Op::Save | Op::Restore | Op::Query(_) => Ok(()),
         };
         match r {
             Ok(()) => Outcome { ok: true, err: String::new() },
